@@ -358,7 +358,7 @@ def _run(case: Dict[str, Any], sim: Sim, world: World) -> None:
             check_net(nets[i], models[i], site, cond, other=other)
 
     def apply_add(i: int, H: CRNHyperGraph, M: Model, site: str, call, r: Dict[str, int], p: Dict[str, int],
-                  rule: Optional[str], eid: Optional[str]) -> str:
+                  rule: Optional[str], eid: Optional[str], exotic: bool = False) -> str:
         """call() performs the real add; returns outcome label."""
         rule_eff = rule or "r"
         expect_err = None
@@ -371,7 +371,13 @@ def _run(case: Dict[str, Any], sim: Sim, world: World) -> None:
             sim.probe("generated_id_equals_existing_explicit_id_form")
         try:
             e = call()
-        except (KeyError, ValueError) as ex:
+        except (KeyError, ValueError, TypeError) as ex:
+            if expect_err is None and exotic:
+                # counts written as strings / floats are only *tolerated* by the library; rejecting them is legal
+                sim.fault("failed_op:" + type(ex).__name__)
+                return "rejected_exotic_input"
+            if isinstance(ex, TypeError):
+                raise
             if expect_err is None:
                 _fail(site, "unexpected_exception", cond_for(i), {"exc": repr(ex), "r": r, "p": p, "rule": rule, "eid": eid})
             sim.fault("failed_op:" + type(ex).__name__)
@@ -418,7 +424,7 @@ def _run(case: Dict[str, Any], sim: Sim, world: World) -> None:
             r, p = _norm(op["r"]), _norm(op["p"])
             fr, fp = _fmt_side(op["r"], op["fmt"]), _fmt_side(op["p"], op["fmt"])
             outcome = apply_add(i, H, M, site, lambda: H.add_rxn(fr, fp, rule=op["rule"], edge_id=op["eid"]),
-                                r, p, op["rule"], op["eid"])
+                                r, p, op["rule"], op["eid"], exotic=op["fmt"] in ("pairs_str", "map_float"))
         elif k == "add_str":
             site = "add_rxn_from_str"
             r, p = _norm(op["r"]), _norm(op["p"])
